@@ -78,6 +78,9 @@ func registerExtra(p *Program) {
 		m.call(fr, a[1], nil)
 		return nil
 	}
+	I[vpPath+"BytesLess"] = func(m *Machine, fr *Frame, fn *ssa.Function, a []Value) Value {
+		return m.bytesLess(m.bytesArg(a[0]), m.bytesArg(a[1]), false)
+	}
 	I[vpPath+"StoreMark"] = func(m *Machine, fr *Frame, fn *ssa.Function, a []Value) Value {
 		return m.tb.ConstI(int64(len(storeData(m, a[0], cstr(a[1])).writes)), 64)
 	}
